@@ -285,13 +285,33 @@ impl<T> SymbolManager<T>
 
         if let Some(duplicate_ref) = children.get(&name)
         {
+            // Declarations are not collected in source order (functions
+            // come after symbols, contents of `#if` blocks last):
+            // the faulty one is the one written later
+            let other_span = self.get(*duplicate_ref).span;
+
+            let written_before_other =
+                span.file_handle == other_span.file_handle &&
+                match (span.location(), other_span.location())
+                {
+                    (Some(this), Some(other)) => this.0 < other.0,
+                    _ => false,
+                };
+
+            let (first_span, second_span) = {
+                if written_before_other
+                    { (span, other_span) }
+                else
+                    { (other_span, span) }
+            };
+
             report.push_parent(
                 format!("duplicate {} `{}`", self.report_as, name),
-                span);
+                second_span);
 
             report.note_span(
                 "first declared here",
-                self.get(*duplicate_ref).span);
+                first_span);
 
             report.pop_parent();
 
